@@ -352,7 +352,7 @@ def area(spec):
             p2 = PSD[i + 1, j]
 
             s = np.log(p2 / p1) / np.log(f2 / f1)
-            if abs(s + 1.0) < 1e-5:
+            if abs(s + 1.0) < 1e-8:
                 # happens when p2/p1 = f1/f2
                 #   slope = -10*log10(2) db/octave
                 intarea = p1 * f1 * np.log(f2 / f1)
